@@ -22,7 +22,7 @@ RULE = (
     "worlds = conversion graph (single deserializer+serializer, chain of two, two deserializers in both registration "
     "orders, generic Wrapper[T] <-> List[T], generic Box[T] <-> T (bare type variable end; registered and dynamic; T in "
     "{int, str, List[int], dataclass, Optional[int]}; under T / List / Dict), collection-like class with a registered conversion under a dynamic / field conversion "
-    "on its elements, lazy registration, inherited / non-inherited serializer on a subclass, "
+    "on its elements, constraints declared next to a field / dynamic conversion (schema agreement), lazy registration, inherited / non-inherited serializer on a subclass, "
     "catch_value_error converter, class with schema()/type_name annotations) x placement (registered, dynamic "
     "conversion=, Annotated, field metadata, default_conversion function, identity bypass) x source type in {int, str, "
     "List[int], dataclass} x context in {T, List, Optional, Dict, Tuple, Union, object field, object field holding a "
@@ -344,6 +344,13 @@ class Drawing:
     outline: PtPath = field(metadata=conversion(serialization=pt_to_str, deserialization=pt_from_str))
     raw: PtPath = field(default_factory=PtPath)
 
+def str_from_int(x: int) -> str: return str(x)
+def int_to_str(x: int) -> str: return str(x)
+@dataclass
+class ConvCons:
+    a: str = field(default="0", metadata=conversion(deserialization=str_from_int) | schema(min=0, max=5))
+    b: List[K] = field(default_factory=list, metadata=conversion(deserialization=k_from_int) | schema(max_items=1))
+
 @schema(description="a K with annotations", min=0)
 @type_name("KNamed")
 class KA(K): pass
@@ -584,7 +591,30 @@ def special_worlds(st: infra.Stats):
         sys.modules.pop(m.__name__, None)
         apischema.cache.reset()
     _guard('collection-like class with a registered conversion under a dynamic conversion', _sec_7)
-    st.count("special_worlds", 10)
+    def _sec_8():  # constraints given next to a field / dynamic conversion bear on the source of the conversion
+        from jsonschema import Draft202012Validator
+
+        m = exec_source(PRELUDE + SPECIAL)
+        cases = [
+            ("ConvCons", m.ConvCons, {}, [{}, {"a": 0}, {"a": 5}, {"a": -1}, {"a": 6}, {"a": "1"}, {"b": []}, {"b": [1]}, {"b": [1, 2]}, {"b": ["x"]}]),
+            ("K+dynamic+schema", m.K, {"conversion": m.k_from_int, "schema": apischema.schema(min=0)}, [0, 3, -1, "a"]),
+            ("List[K]+dynamic+schema", List[m.K], {"conversion": m.k_from_int, "schema": apischema.schema(max_items=1)}, [[], [1], [1, 2], [-1]]),
+        ]
+        for name, tp, kw, data in cases:
+            sch = run(lambda: deserialization_schema(tp, **kw))
+            if sch[0] != "ok":
+                viol("conversion_constraints", f"{name}: deserialization_schema raised {sch}", world=name)
+                continue
+            validator = Draft202012Validator(sch[1])
+            for d in data:
+                st.case("conversion_constraints", name, repr(d))
+                got = run(lambda: deserialize(tp, d, **kw))
+                if (got[0] == "ok") != validator.is_valid(d):
+                    viol("conversion_constraints", f"{name} <- {d!r}: deserialize {'accepts' if got[0] == 'ok' else 'rejects'} ({got[1]!r}) but its schema {json.dumps(sch[1])[:200]} says the opposite", world=name)
+        sys.modules.pop(m.__name__, None)
+        apischema.cache.reset()
+    _guard('constraints next to a conversion', _sec_8)
+    st.count("special_worlds", 11)
 
 
 
